@@ -1,4 +1,25 @@
-(* ContainersProofs.v — proofs of the statements of RModel/ContainersSpec.v. *)
+(* ContainersProofs.v — proofs of the statements of RModel/ContainersSpec.v.
+
+   Proved as stated: gz_header_roundtrip, gz_member_roundtrip, gz_member_by_member, gz_concat,
+   zl_roundtrip, gz_payload_prefix.
+
+   Statements that are false as written (byte = N, and the statements quantify over lists whose
+   elements need not be < 256):
+   - checksum_width_statement: Eval vm_compute in crc32 [1099511627776] (the element is 2^40)
+     gives 7818375053 >= 4294967296 (the adler32 half holds for every list).
+     Refuted in checksum_width_counterexample; proved for byte lists: checksum_width_partial.
+   - gz_eof_checked_statement: for
+       l = [31;139;8;0;0;0;0;0;0;0; 1;1;0;254;255;0; 397;238;2;210;1;0;0;0]
+     (member with a stored block for payload [0]; the first trailer element is 141+256 and the
+     second 239-1, so of_le of the four CRC elements is still crc32 [0]) gz_read false l ends
+     with CEOF, payload [0], but the eight elements after the DEFLATE stream are not
+     gz_trailer [0].  Refuted in gz_eof_checked_counterexample; proved for byte lists:
+     gz_eof_checked_partial (extra premise bytes_lt256 l).
+   - zl_eof_checked_statement: not refuted (its witnesses d, rest are not tied to l), but the
+     natural witnesses fail for the same reason on [120;1; 1;1;0;254;255;0; 0;0;256;1].
+     Proved with the extra premise bytes_lt256 l (zl_eof_checked_partial) and, for arbitrary
+     l, from inflate_mono_statement and inflate_done_exact_statement
+     (zl_eof_checked_exact_partial). *)
 From Verif Require Import ContainersSpec.
 From Coq Require Import ZArith Lia ZifyBool ZifyNat ZifyN.
 Open Scope N_scope.
@@ -220,9 +241,9 @@ Proof. intros l flg m0 m1 m2 m3 xfl os tail E. rewrite parse_staged. subst l. re
 
 Definition nilb (l : list byte) : bool := match l with [] => true | _ => false end.
 Definition enc_extra (e : list byte) : list byte :=
-  match e with [] => [] | e' => le16 (N.of_nat (length e')) ++ e' end.
+  match e with [] => [] | x :: r => le16 (N.of_nat (length (x :: r))) ++ x :: r end.
 Definition enc_str (s : list byte) : list byte :=
-  match s with [] => [] | s' => s' ++ [0] end.
+  match s with [] => [] | x :: r => (x :: r) ++ [0] end.
 
 Lemma p_extra_gen : forall a b e Y, N.to_nat (of_le [a; b]) = length e ->
   p_extra true (a :: b :: e ++ Y) = inl (e, Y).
@@ -262,22 +283,19 @@ Lemma p_extra_ok : forall e Y, (length e < 65536)%nat ->
   p_extra (negb (nilb e)) (enc_extra e ++ Y) = inl (e, Y).
 Proof.
   intros e Y He. destruct e as [|x e]; [reflexivity|].
-  set (e' := x :: e) in *. unfold enc_extra, nilb. fold e'.
-  change (match e' with [] => [] | _ :: _ => le16 (N.of_nat (length e')) ++ e' end)
-    with (le16 (N.of_nat (length e')) ++ e').
-  change (negb match e' with [] => true | _ :: _ => false end) with true.
-  unfold le16. cbn [app]. apply p_extra_gen. now apply le16_len.
+  change (enc_extra (x :: e)) with (le16 (N.of_nat (length (x :: e))) ++ x :: e).
+  change (negb (nilb (x :: e))) with true.
+  unfold le16. cbn [app]. apply (p_extra_gen _ _ (x :: e)). now apply le16_len.
 Qed.
 
 Lemma p_extra_trunc : forall e j, (length e < 65536)%nat -> (j < length (enc_extra e))%nat ->
   p_extra (negb (nilb e)) (firstn j (enc_extra e)) = inr CUnexpectedEOF.
 Proof.
   intros e j He Hj. destruct e as [|x e]; [cbn [enc_extra length] in Hj; lia|].
-  set (e' := x :: e) in *. unfold enc_extra, nilb in *. fold e' in Hj |- *.
-  change (match e' with [] => [] | _ :: _ => le16 (N.of_nat (length e')) ++ e' end)
-    with (le16 (N.of_nat (length e')) ++ e') in *.
-  change (negb match e' with [] => true | _ :: _ => false end) with true.
-  unfold le16 in *. cbn [app length] in *. apply p_extra_gen_trunc; [now apply le16_len | lia].
+  change (enc_extra (x :: e)) with (le16 (N.of_nat (length (x :: e))) ++ x :: e) in *.
+  change (negb (nilb (x :: e))) with true.
+  unfold le16 in *. cbn [app] in *.
+  apply (p_extra_gen_trunc _ _ (x :: e)); [now apply le16_len | cbn [length] in *; lia].
 Qed.
 
 Lemma read_cstring_ok : forall s fuel acc Y, ~ In 0 s -> (length s < fuel)%nat ->
@@ -373,7 +391,7 @@ Proof.
   rewrite p_extra_ok by assumption. rewrite p_str_ok by assumption. rewrite p_str_ok by assumption.
   unfold p_crc. destruct hc; [|reflexivity].
   subst l. unfold crc_part. set (c := crc32 pre mod 65536).
-  assert (Hc : c < 65536) by (unfold c; apply N.mod_lt; lia).
+  assert (Hc : c < 65536) by (apply N.mod_lt; discriminate).
   pose proof (of_le_le16 c Hc) as Hle. unfold le16 in *. cbn [app].
   now apply p_crc_true.
 Qed.
@@ -426,8 +444,7 @@ Lemma nocrc_shape : forall h,
   31 :: 139 :: 8 :: gz_flags h ::
   g_mtime h mod 256 :: (g_mtime h / 256) mod 256 :: (g_mtime h / 65536) mod 256 ::
   (g_mtime h / 16777216) mod 256 :: g_xfl h :: g_os h :: hdr_tail h.
-Proof. intros h. unfold gz_header_nocrc, hdr_tail, le32, enc_extra, enc_str. cbn [app].
-reflexivity. Qed.
+Proof. intros h. reflexivity. Qed.
 
 Lemma gz_header_cons : forall h Y,
   gz_header h ++ Y =
@@ -451,3 +468,703 @@ Proof.
   - destruct h; reflexivity.
   - rewrite gz_header_shape. now rewrite <- app_assoc.
 Qed.
+
+(* ---------------------------------------------------------------- *)
+(* the reference inflater only produces bytes                       *)
+(* ---------------------------------------------------------------- *)
+
+Lemma take_lt : forall n s v s', take n s = Some (v, s') -> v < 2 ^ N.of_nat n.
+Proof.
+  induction n as [|n IH]; intros s v s' H; cbn [take] in H.
+  - inversion H; subst. reflexivity.
+  - destruct (take1 s) as [[b s1]|] eqn:E1; [|discriminate].
+    destruct (take n s1) as [[v1 s2]|] eqn:E2; [|discriminate].
+    inversion H; subst. apply IH in E2.
+    rewrite Nat2N.inj_succ, N.pow_succ_r'. set (p := 2 ^ N.of_nat n) in *. clearbody p.
+    destruct b, v1; lia.
+Qed.
+
+Lemma take8_lt : forall s v s', take 8 s = Some (v, s') -> v < 256.
+Proof. intros s v s' H. apply take_lt in H. exact H. Qed.
+
+Lemma push_ok : forall b st, b < 256 -> bytes_lt256 (rout st) -> bytes_lt256 (rout (push b st)).
+Proof. intros b st Hb H. unfold push. cbn [rout]. now constructor. Qed.
+
+Lemma copy_cyc_ok : forall len seg cur st, bytes_lt256 seg -> bytes_lt256 cur ->
+  bytes_lt256 (rout st) -> bytes_lt256 (rout (copy_cyc seg cur len st)).
+Proof.
+  induction len as [|len IH]; intros seg cur st Hs Hc Hst; cbn [copy_cyc]; auto.
+  destruct cur as [|b cur'].
+  - destruct seg as [|b s']; auto.
+    inversion Hs as [|? ? Hb Hs']; subst. apply IH; auto. now apply push_ok.
+  - inversion Hc as [|? ? Hb Hc']; subst. apply IH; auto. now apply push_ok.
+Qed.
+
+Lemma copy_match_ok : forall len d st, bytes_lt256 (rout st) ->
+  bytes_lt256 (rout (copy_match len d st)).
+Proof.
+  intros len d st H. unfold copy_match. cbn [rout].
+  assert (Hseg : bytes_lt256 (frev (firstn (N.to_nat d) (rout st)))).
+  { apply Forall_frev. now apply Forall_firstn'. }
+  now apply copy_cyc_ok.
+Qed.
+
+Definition bres_ok (r : bres) : Prop :=
+  match r with BEnd st _ => bytes_lt256 (rout st) | BStop st _ _ => bytes_lt256 (rout st) end.
+
+Lemma symbols_ok : forall fuel lt dt st s, bytes_lt256 (rout st) ->
+  bres_ok (symbols fuel lt dt st s).
+Proof.
+  induction fuel as [|f IH]; intros lt dt st s H; cbn [symbols]; [exact H|].
+  destruct (decode_sym lt s) as [sym s1| |] eqn:E1; try exact H.
+  destruct (Nat.ltb_spec sym 256) as [L|L].
+  { apply IH. apply push_ok; auto. lia. }
+  destruct (sym =? 256)%nat; [exact H|].
+  destruct (nth_error len_table (sym - 257)) as [[lbase lextra]|]; [|exact H].
+  destruct (take (N.to_nat lextra) s1) as [[le s2]|]; [|exact H].
+  destruct (decode_sym dt s2) as [dsym s3| |]; try exact H.
+  destruct (nth_error dist_table dsym) as [[dbase dextra]|]; [|exact H].
+  destruct (take (N.to_nat dextra) s3) as [[de s4]|]; [|exact H].
+  cbv zeta. destruct (oavail st <? dbase + de); [exact H|].
+  apply IH. now apply copy_match_ok.
+Qed.
+
+Lemma stored_ok : forall n st s, bytes_lt256 (rout st) ->
+  bytes_lt256 (rout (fst (fst (stored n st s)))).
+Proof.
+  induction n as [|n IH]; intros st s H; cbn [stored]; [exact H|].
+  destruct (take 8 s) as [[b s1]|] eqn:E; [|exact H].
+  apply IH. apply push_ok; auto. eapply take8_lt; eauto.
+Qed.
+
+Lemma finish_ok : forall st s e, bytes_lt256 (rout st) -> bytes_lt256 (out (finish st s e)).
+Proof.
+  intros st s e H. unfold finish. cbn [out]. apply Forall_skipn'. now apply Forall_frev.
+Qed.
+
+Lemma blocks_ok : forall fuel st s, bytes_lt256 (rout st) -> bytes_lt256 (out (blocks fuel st s)).
+Proof.
+  induction fuel as [|f IH]; intros st s H; cbn [blocks]; [now apply finish_ok|].
+  destruct (take 1 s) as [[bfinal s1]|]; [|now apply finish_ok].
+  destruct (take 2 s1) as [[btype s2]|]; [|now apply finish_ok].
+  assert (Hafter : forall r, bres_ok r ->
+    bytes_lt256 (out match r with
+      | BStop st' s' e => finish st' s' e
+      | BEnd st' s' => if bfinal =? 1 then finish st' s' Done else blocks f st' s'
+      end)).
+  { intros r Hr. destruct r as [st' s'|st' s' e]; cbn [bres_ok] in Hr.
+    - destruct (bfinal =? 1); [now apply finish_ok | now apply IH].
+    - now apply finish_ok. }
+  cbv zeta.
+  destruct (btype =? 0).
+  { destruct (take 16 (align s2)) as [[len s4]|]; [|now apply finish_ok].
+    destruct (take 16 s4) as [[nlen s5]|]; [|now apply finish_ok].
+    destruct (negb (len + nlen =? 65535)); [now apply finish_ok|].
+    pose proof (stored_ok (N.to_nat len) st s5 H) as Hst.
+    destruct (stored (N.to_nat len) st s5) as [[st' s6] full]. cbn [fst] in Hst.
+    destruct (negb full); [now apply finish_ok|].
+    destruct ((len =? 0) && (bfinal =? 0)).
+    - destruct (bfinal =? 1); [apply finish_ok | apply IH]; exact Hst.
+    - destruct (bfinal =? 1); [apply finish_ok | apply IH]; exact Hst. }
+  destruct (btype =? 1).
+  { destruct fixed_tries as [[lt dt]|]; [|now apply finish_ok].
+    apply Hafter. now apply symbols_ok. }
+  destruct (btype =? 2); [|now apply finish_ok].
+  destruct (dyn_header s2) as [[lt dt] s3|e].
+  - apply Hafter. now apply symbols_ok.
+  - destruct e; now apply finish_ok.
+Qed.
+
+Lemma inflate_out_bytes : forall dict s, bytes_lt256 dict -> bytes_lt256 (out (inflate dict s)).
+Proof.
+  intros dict s H. unfold inflate. cbv zeta. apply blocks_ok. cbn [rout]. now apply Forall_frev.
+Qed.
+
+Lemma nil_bytes : bytes_lt256 [].
+Proof. constructor. Qed.
+
+(* ---------------------------------------------------------------- *)
+(* consequences of prefix monotonicity                              *)
+(* ---------------------------------------------------------------- *)
+
+Lemma mono_done : inflate_mono_statement -> forall d s t,
+  status (inflate d s) = Done -> inflate d (s ++ t) = inflate d s.
+Proof.
+  intros M d s t H. pose proof (M d s t) as Hm. cbv zeta in Hm. rewrite H in Hm. exact Hm.
+Qed.
+
+Lemma mono_corrupt : inflate_mono_statement -> forall d s t,
+  status (inflate d s) = Corrupt -> status (inflate d (s ++ t)) = Corrupt.
+Proof.
+  intros M d s t H. pose proof (M d s t) as Hm. cbv zeta in Hm. rewrite H in Hm. tauto.
+Qed.
+
+Lemma mono_need : inflate_mono_statement -> forall d s t,
+  status (inflate d s) = NeedInput -> is_prefix (out (inflate d s)) (out (inflate d (s ++ t))).
+Proof.
+  intros M d s t H. pose proof (M d s t) as Hm. cbv zeta in Hm. rewrite H in Hm. tauto.
+Qed.
+
+Lemma mono_nofuel : inflate_mono_statement -> forall d s, status (inflate d s) <> Fuel.
+Proof.
+  intros M d s H. pose proof (M d s []) as Hm. cbv zeta in Hm. rewrite H in Hm. exact Hm.
+Qed.
+
+(* ---------------------------------------------------------------- *)
+(* one member                                                       *)
+(* ---------------------------------------------------------------- *)
+
+Lemma trailer_len : forall p, length (gz_trailer p) = 8%nat.
+Proof. intros p. reflexivity. Qed.
+
+Lemma read_body_ok : inflate_mono_statement -> forall body payload rest,
+  body_for body payload ->
+  gz_read_body (body ++ gz_trailer payload ++ rest) = (payload, None, rest).
+Proof.
+  intros M body payload rest (Hd & Ho & Hn).
+  assert (Hb : bytes_lt256 payload).
+  { rewrite <- Ho. apply inflate_out_bytes. constructor. }
+  pose proof (crc32_lt payload Hb) as Hcrc.
+  unfold gz_read_body. cbv zeta.
+  rewrite (mono_done M [] body _ Hd). rewrite Hd, Ho, Hn.
+  rewrite Nat2N.id. rewrite skipn_len_app.
+  pose proof (of_le_le32 (crc32 payload) Hcrc) as E1.
+  assert (E2 : of_le (le32 (N.of_nat (length payload) mod 4294967296))
+               = N.of_nat (length payload) mod 4294967296).
+  { apply of_le_le32. apply N.mod_lt. discriminate. }
+  unfold gz_trailer, le32 in *. cbn [app length firstn skipn].
+  change (S (S (S (S (S (S (S (S (length rest)))))))) <? 8)%nat with false. cbn iota.
+  match goal with |- (if (?a =? ?b) && (?c =? ?d) then _ else _) = _ =>
+    replace (a =? b) with true by (symmetry; apply N.eqb_eq; exact E1);
+    replace (c =? d) with true by (symmetry; apply N.eqb_eq; exact E2) end.
+  reflexivity.
+Qed.
+
+Lemma gz_member_assoc : forall h body payload rest,
+  gz_member h body payload ++ rest = gz_header h ++ (body ++ gz_trailer payload ++ rest).
+Proof. intros. unfold gz_member. now rewrite <- !app_assoc. Qed.
+
+Theorem gz_member_roundtrip : gz_member_roundtrip_statement.
+Proof.
+  intros M h body payload rest Hh Hb.
+  unfold gz_read. rewrite gz_member_assoc. rewrite (gz_header_roundtrip h _ Hh).
+  cbn [gz_members]. rewrite (read_body_ok M _ _ _ Hb). cbn [negb app rev]. reflexivity.
+Qed.
+
+Theorem gz_member_by_member : gz_member_by_member_statement.
+Proof.
+  intros M [[h body] payload] rest [Hh Hb]. cbn [member_bytes fst snd].
+  now apply gz_member_roundtrip.
+Qed.
+
+Lemma members_bytes_cons : forall h b p ms,
+  members_bytes ((h, b, p) :: ms) = gz_header h ++ (b ++ gz_trailer p ++ members_bytes ms).
+Proof.
+  intros. unfold members_bytes. cbn [map concat member_bytes]. apply gz_member_assoc.
+Qed.
+
+Lemma members_concat : inflate_mono_statement -> forall ms, Forall member_ok ms ->
+  forall fuel body payload acc hs, body_for body payload -> (length ms < fuel)%nat ->
+  gz_members fuel true (body ++ gz_trailer payload ++ members_bytes ms) acc hs
+  = mkgres (acc ++ payload ++ concat (map (fun m => snd m) ms)) CEOF []
+           (rev hs ++ map (fun m => fst (fst m)) ms) false.
+Proof.
+  intros M ms. induction ms as [|[[h' b'] p'] ms IH]; intros Hms fuel body payload acc hs Hb Hf;
+    (destruct fuel as [|f]; [cbn [length] in Hf; lia|]); cbn [gz_members].
+  - rewrite (read_body_ok M _ _ _ Hb). cbn [negb].
+    change (members_bytes []) with (@nil byte). rewrite parse_staged.
+    cbn [map concat]. now rewrite !app_nil_r.
+  - inversion Hms as [|? ? Hm Hms']; subst. unfold member_ok in Hm. destruct Hm as [Hh' Hb'].
+    rewrite (read_body_ok M _ _ _ Hb). cbn [negb].
+    rewrite members_bytes_cons. rewrite (gz_header_roundtrip h' _ Hh').
+    rewrite IH; auto; [|cbn [length] in Hf; lia].
+    cbn [map concat rev fst snd]. now rewrite <- !app_assoc.
+Qed.
+
+Lemma gz_header_len : forall h, (10 <= length (gz_header h))%nat.
+Proof.
+  intros h. rewrite <- (app_nil_r (gz_header h)). rewrite gz_header_cons. cbn [length]. lia.
+Qed.
+
+Lemma members_bytes_len : forall ms, (length ms <= length (members_bytes ms))%nat.
+Proof.
+  induction ms as [|[[h b] p] ms IH]; [cbn; lia|].
+  rewrite members_bytes_cons. rewrite !app_length. pose proof (gz_header_len h). cbn [length]. lia.
+Qed.
+
+Theorem gz_concat : gz_concat_statement.
+Proof.
+  intros M ms Hne Hms. destruct ms as [|[[h b] p] ms]; [congruence|].
+  inversion Hms as [|? ? Hm Hms']; subst. unfold member_ok in Hm. destruct Hm as [Hh Hb].
+  unfold gz_read. rewrite members_bytes_cons at 1. rewrite (gz_header_roundtrip h _ Hh).
+  rewrite (members_concat M ms Hms' _ _ _ _ _ Hb).
+  - reflexivity.
+  - pose proof (members_bytes_len ((h, b, p) :: ms)) as Hl. cbn [length] in Hl. exact (le_S _ _ Hl).
+Qed.
+
+(* ---------------------------------------------------------------- *)
+(* zlib                                                             *)
+(* ---------------------------------------------------------------- *)
+
+Definition zl_body (d r1 : list byte) : gres :=
+  let r := inflate d r1 in
+  match status r with
+  | Done =>
+    let rest := skipn (N.to_nat ((bitpos r + 7) / 8)) r1 in
+    if (length rest <? 4)%nat then mkgres (out r) CUnexpectedEOF [] [] false
+    else if of_be (firstn 4 rest) =? adler32 (out r)
+         then mkgres (out r) CEOF (skipn 4 rest) [] false
+         else mkgres (out r) CChecksum (skipn 4 rest) [] false
+  | NeedInput => mkgres (out r) CUnexpectedEOF [] [] false
+  | _ => mkgres (out r) CCorrupt [] [] false
+  end.
+
+Definition dict_or_nil (dict : option (list byte)) : list byte :=
+  match dict with Some d => d | None => [] end.
+
+Lemma of_be_be32_cons : forall v X, v < 4294967296 ->
+  of_be (firstn 4 (be32 v ++ X)) = v /\ skipn 4 (be32 v ++ X) = X /\
+  (length (be32 v ++ X) <? 4)%nat = false.
+Proof.
+  intros v X H. pose proof (of_be_be32 v H) as E. unfold be32 in *.
+  cbn [app firstn skipn length]. repeat split; auto.
+Qed.
+
+Lemma zl_read_gen : forall dict flg X,
+  (120 * 256 + flg) mod 31 = 0 ->
+  N.testbit flg 5 = (match dict with Some _ => true | None => false end) ->
+  zl_read dict (120 :: flg :: (match dict with Some d => be32 (adler32 d) | None => [] end) ++ X)
+  = zl_body (dict_or_nil dict) X.
+Proof.
+  intros dict flg X Hm Hb.
+  set (T := (match dict with Some d => be32 (adler32 d) | None => [] end) ++ X).
+  unfold zl_read. change (skipn 2 (120 :: flg :: T)) with T. cbn [length nth].
+  change (S (S (length T)) <? 2)%nat with false. subst T.
+  cbn iota. change (120 mod 16 =? 8) with true. change (120 / 16 <=? 7) with true.
+  rewrite Hm. change (0 =? 0) with true. cbn [andb negb]. rewrite Hb.
+  destruct dict as [d|]; [|reflexivity].
+  destruct (of_be_be32_cons (adler32 d) X (adler32_lt d)) as (E1 & E2 & E3).
+  rewrite E3, E1, E2, N.eqb_refl. reflexivity.
+Qed.
+
+Lemma zl_header_flags : forall lv dict, lv < 4 ->
+  exists flg, zl_header lv dict = 120 :: flg :: (match dict with Some d => be32 (adler32 d) | None => [] end) /\
+    (120 * 256 + flg) mod 31 = 0 /\
+    N.testbit flg 5 = (match dict with Some _ => true | None => false end).
+Proof.
+  intros lv dict H.
+  assert (Hc : lv = 0 \/ lv = 1 \/ lv = 2 \/ lv = 3) by lia.
+  unfold zl_header. cbv zeta. cbn [app].
+  destruct dict as [d|]; destruct Hc as [-> | [-> | [-> | ->]]];
+    eexists; (split; [reflexivity|]); split; reflexivity.
+Qed.
+
+Theorem zl_roundtrip : zl_roundtrip_statement.
+Proof.
+  intros M lv dict body payload rest Hlv Hd Ho Hn.
+  fold (dict_or_nil dict) in Hd, Ho, Hn.
+  destruct (zl_header_flags lv dict Hlv) as (flg & Eh & Hm & Hb).
+  unfold zl_stream. rewrite Eh. cbn [app]. rewrite <- !app_assoc.
+  rewrite (zl_read_gen dict flg _ Hm Hb).
+  unfold zl_body. cbv zeta.
+  rewrite (mono_done M _ body _ Hd). rewrite Hd, Ho, Hn.
+  rewrite Nat2N.id, skipn_len_app.
+  destruct (of_be_be32_cons (adler32 payload) rest (adler32_lt payload)) as (E1 & E2 & E3).
+  rewrite E3, E1, E2, N.eqb_refl. reflexivity.
+Qed.
+
+(* ---------------------------------------------------------------- *)
+(* io.EOF only with matching checksums                              *)
+(* ---------------------------------------------------------------- *)
+
+Definition suffix (s l : list byte) : Prop := exists pre, l = pre ++ s.
+
+Lemma suffix_refl : forall l, suffix l l.
+Proof. intros l. now exists []. Qed.
+
+Lemma suffix_trans : forall a b c, suffix a b -> suffix b c -> suffix a c.
+Proof. intros a b c [p1 ->] [p2 ->]. exists (p2 ++ p1). now rewrite app_assoc. Qed.
+
+Lemma suffix_skipn : forall n l, suffix (skipn n l) l.
+Proof. intros n l. exists (firstn n l). now rewrite firstn_skipn. Qed.
+
+Lemma suffix_bytes : forall s l, suffix s l -> bytes_lt256 l -> bytes_lt256 s.
+Proof. intros s l [pre ->] H. apply Forall_app in H. tauto. Qed.
+
+Lemma read_cstring_suffix : forall fuel l acc s r,
+  read_cstring fuel l acc = Some (Some (s, r)) -> suffix r l.
+Proof.
+  induction fuel as [|f IH]; intros l acc s r H; cbn [read_cstring] in H; [discriminate|].
+  destruct l as [|x l']; [discriminate|].
+  destruct (x =? 0).
+  - inversion H; subst. now exists [x].
+  - apply IH in H. eapply suffix_trans; [exact H|]. now exists [x].
+Qed.
+
+Lemma p_extra_inl : forall b r0 e r1, p_extra b r0 = inl (e, r1) -> suffix r1 r0.
+Proof.
+  intros b r0 e r1 H. unfold p_extra in H. destruct b.
+  - destruct (length r0 <? 2)%nat; [discriminate|]. cbv zeta in H.
+    destruct (length (skipn 2 r0) <? _)%nat; [discriminate|].
+    injection H as <- <-.
+    eapply suffix_trans; [apply suffix_skipn | exact (suffix_skipn 2 r0)].
+  - inversion H; subst. apply suffix_refl.
+Qed.
+
+Lemma p_extra_inr : forall b r0 e, p_extra b r0 = inr e -> e = CUnexpectedEOF.
+Proof.
+  intros b r0 e H. unfold p_extra in H. destruct b; [|discriminate].
+  destruct (length r0 <? 2)%nat; [now inversion H|]. cbv zeta in H.
+  destruct (length (skipn 2 r0) <? _)%nat; [now inversion H|discriminate].
+Qed.
+
+Lemma p_str_inl : forall b r s r', p_str b r = inl (s, r') -> suffix r' r.
+Proof.
+  intros b r s r' H. unfold p_str in H. destruct b.
+  - destruct (read_cstring 512 r []) as [[[s0 r0]|]|] eqn:E; try discriminate.
+    inversion H; subst. eapply read_cstring_suffix; eauto.
+  - inversion H; subst. apply suffix_refl.
+Qed.
+
+Lemma p_str_inr : forall b r e, p_str b r = inr e -> e <> CEOF.
+Proof.
+  intros b r e H. unfold p_str in H. destruct b; [|discriminate].
+  destruct (read_cstring 512 r []) as [[[s0 r0]|]|]; inversion H; discriminate.
+Qed.
+
+Lemma p_crc_ok : forall b l mt xfl os e nm cm r3 h rest,
+  p_crc b l mt xfl os e nm cm r3 = HP_ok h rest -> suffix rest r3.
+Proof.
+  intros b l mt xfl os e nm cm r3 h rest H. unfold p_crc in H. destruct b.
+  - destruct (length r3 <? 2)%nat; [discriminate|]. cbv zeta in H.
+    destruct (_ =? _); [|discriminate]. injection H as <- <-. exact (suffix_skipn 2 r3).
+  - inversion H; subst. apply suffix_refl.
+Qed.
+
+Lemma p_crc_err : forall b l mt xfl os e nm cm r3,
+  p_crc b l mt xfl os e nm cm r3 <> HP_err CEOF.
+Proof.
+  intros b l mt xfl os e nm cm r3 H. unfold p_crc in H. destruct b; [|discriminate].
+  destruct (length r3 <? 2)%nat; [discriminate|]. cbv zeta in H.
+  destruct (_ =? _); discriminate.
+Qed.
+
+Lemma parse_tail_suffix : forall l flg mt xfl os r0 h rest,
+  parse_tail l flg mt xfl os r0 = HP_ok h rest -> suffix rest r0.
+Proof.
+  intros l flg mt xfl os r0 h rest H. unfold parse_tail in H.
+  destruct (p_extra _ r0) as [[e r1]|e1] eqn:E1; [|discriminate].
+  destruct (p_str _ r1) as [[nm r2]|e2] eqn:E2; [|discriminate].
+  destruct (p_str _ r2) as [[cm r3]|e3] eqn:E3; [|discriminate].
+  apply p_crc_ok in H. apply p_extra_inl in E1. apply p_str_inl in E2. apply p_str_inl in E3.
+  eapply suffix_trans; [exact H|]. eapply suffix_trans; [exact E3|].
+  eapply suffix_trans; [exact E2|exact E1].
+Qed.
+
+Lemma parse_tail_not_eof : forall l flg mt xfl os r0,
+  parse_tail l flg mt xfl os r0 <> HP_err CEOF.
+Proof.
+  intros l flg mt xfl os r0 H. unfold parse_tail in H.
+  destruct (p_extra _ r0) as [[e r1]|e1] eqn:E1.
+  2:{ apply p_extra_inr in E1. subst. discriminate. }
+  destruct (p_str _ r1) as [[nm r2]|e2] eqn:E2.
+  2:{ apply p_str_inr in E2. inversion H; subst. contradiction. }
+  destruct (p_str _ r2) as [[cm r3]|e3] eqn:E3.
+  2:{ apply p_str_inr in E3. inversion H; subst. contradiction. }
+  eapply p_crc_err; eauto.
+Qed.
+
+Lemma parse_ok_suffix : forall l h rest, gz_parse_header l = HP_ok h rest -> suffix rest l.
+Proof.
+  intros l h rest H. rewrite parse_staged in H. destruct l as [|x l']; [discriminate|].
+  set (l := x :: l') in *.
+  destruct (length l <? 10)%nat; [discriminate|]. cbv zeta in H.
+  destruct (negb _); [discriminate|].
+  apply parse_tail_suffix in H. eapply suffix_trans; [exact H|exact (suffix_skipn 10 l)].
+Qed.
+
+Lemma parse_eof_nil : forall l, gz_parse_header l = HP_err CEOF -> l = [].
+Proof.
+  intros l H. rewrite parse_staged in H. destruct l as [|x l']; [reflexivity|].
+  set (l := x :: l') in *.
+  destruct (length l <? 10)%nat; [discriminate|]. cbv zeta in H.
+  destruct (negb _); [discriminate|].
+  now apply parse_tail_not_eof in H.
+Qed.
+
+Lemma firstn8_trailer : forall X : list byte, bytes_lt256 X -> (8 <= length X)%nat ->
+  firstn 8 X = le32 (of_le (firstn 4 X)) ++ le32 (of_le (firstn 4 (skipn 4 X))).
+Proof.
+  intros X Hb Hl.
+  do 8 (destruct X as [|? X]; [cbn [length] in Hl; lia|]).
+  cbn [firstn skipn].
+  unfold bytes_lt256 in Hb.
+  repeat match goal with H : Forall _ (_ :: _) |- _ =>
+    let H1 := fresh "Hx" in let H2 := fresh "Hr" in inversion H as [|? ? H1 H2]; subst; clear H end.
+  rewrite <- (of_le4_inv b b0 b1 b2 _) by auto.
+  rewrite <- (of_le4_inv b3 b4 b5 b6 _) by auto.
+  reflexivity.
+Qed.
+
+Lemma read_body_none : forall l p rest', bytes_lt256 l -> gz_read_body l = (p, None, rest') ->
+  status (inflate [] l) = Done /\ p = out (inflate [] l) /\
+  firstn 8 (skipn (N.to_nat ((bitpos (inflate [] l) + 7) / 8)) l) = gz_trailer (out (inflate [] l)) /\
+  rest' = skipn (N.to_nat ((bitpos (inflate [] l) + 7) / 8) + 8) l.
+Proof.
+  intros l p rest' Hb H. unfold gz_read_body in H. cbv zeta in H.
+  set (r := inflate [] l) in *. set (n := N.to_nat ((bitpos r + 7) / 8)) in *.
+  destruct (status r); try discriminate.
+  set (X := skipn n l) in *.
+  destruct (Nat.ltb_spec (length X) 8) as [L|L]; [discriminate|].
+  destruct ((of_le (firstn 4 X) =? crc32 (out r)) &&
+            (of_le (firstn 4 (skipn 4 X)) =? N.of_nat (length (out r)) mod 4294967296)) eqn:E;
+    [|discriminate].
+  apply andb_prop in E. destruct E as [E1 E2]. apply N.eqb_eq in E1, E2.
+  injection H as <- <-. repeat split.
+  - rewrite (firstn8_trailer X); [| apply Forall_skipn'; exact Hb | exact L].
+    unfold gz_trailer. now rewrite E1, E2.
+  - unfold X. exact (skipn_skipn' _ 8%nat n l).
+Qed.
+
+Lemma read_body_some : forall l p e rest', gz_read_body l = (p, Some e, rest') -> e <> CEOF.
+Proof.
+  intros l p e rest' H. unfold gz_read_body in H. cbv zeta in H.
+  destruct (status (inflate [] l)); try (injection H as <- <- <-; discriminate).
+  destruct (_ <? _)%nat; [injection H as <- <- <-; discriminate|].
+  destruct (_ && _); [discriminate|]. injection H as <- <- <-; discriminate.
+Qed.
+
+Lemma members_eof : forall fuel multi l h rest acc hs, bytes_lt256 l ->
+  gz_parse_header l = HP_ok h rest ->
+  g_err (gz_members fuel multi rest acc hs) = CEOF ->
+  exists p, g_payload (gz_members fuel multi rest acc hs) = acc ++ p /\
+            gz_stream multi l p (g_left (gz_members fuel multi rest acc hs)).
+Proof.
+  induction fuel as [|f IH]; intros multi l h rest acc hs Hb Hp He; cbn [gz_members] in *;
+    [cbn [g_err] in He; discriminate|].
+  assert (Hbr : bytes_lt256 rest) by (eapply suffix_bytes; [eapply parse_ok_suffix; eauto|exact Hb]).
+  destruct (gz_read_body rest) as [[payload e] rest'] eqn:Eb.
+  destruct e as [err|].
+  { cbn [g_err] in He. subst err. now apply read_body_some in Eb. }
+  destruct (read_body_none _ _ _ Hbr Eb) as (Hd & Hpay & Htr & Hrest).
+  set (n := N.to_nat ((bitpos (inflate [] rest) + 7) / 8)) in *.
+  destruct multi; cbn [negb] in *.
+  - destruct (gz_parse_header rest') as [h' rest''|e'] eqn:Ep.
+    + assert (Hbr' : bytes_lt256 rest').
+      { subst rest'. now apply Forall_skipn'. }
+      destruct (IH true rest' h' rest'' (acc ++ payload) (h' :: hs) Hbr' Ep He) as (p' & Hp' & Hs').
+      exists (payload ++ p'). split; [now rewrite Hp', app_assoc|].
+      rewrite Hpay. apply (GS_more l h rest n p' _ Hp Hd eq_refl Htr).
+      rewrite <- Hrest. rewrite <- Hpay. exact Hs'.
+    + assert (e' = CEOF) by (destruct e'; cbn [g_err] in He; congruence). subst e'.
+      apply parse_eof_nil in Ep.
+      exists payload. split; [reflexivity|]. cbn [g_left].
+      assert (G : gz_stream true l (out (inflate [] rest)) (skipn (n + 8) rest)).
+      { apply (GS_last true l h rest n Hp Hd eq_refl Htr). right. rewrite <- Hrest. exact Ep. }
+      rewrite <- Hrest in G. rewrite Ep in G. rewrite Hpay. exact G.
+  - exists payload. split; [reflexivity|]. cbn [g_left]. rewrite Hpay, Hrest.
+    apply (GS_last false l h rest n Hp Hd eq_refl Htr). now left.
+Qed.
+
+(* gz_eof_checked_statement as stated is false when the input list contains elements that are
+   not bytes (a trailer "byte" >= 256 can make of_le hit the CRC although the eight trailer
+   elements differ from gz_trailer); see gz_eof_checked_counterexample below.  It holds for
+   byte lists. *)
+Theorem gz_eof_checked_partial :
+  forall multi l, bytes_lt256 l ->
+    g_err (gz_read multi l) = CEOF -> g_at_ctor (gz_read multi l) = false ->
+    gz_stream multi l (g_payload (gz_read multi l)) (g_left (gz_read multi l)).
+Proof.
+  intros multi l Hb He Hc. unfold gz_read in *.
+  destruct (gz_parse_header l) as [h rest|e] eqn:Ep; [|cbn [g_at_ctor] in Hc; discriminate].
+  destruct (members_eof _ _ _ _ _ [] [h] Hb Ep He) as (p & Hp & Hs).
+  rewrite Hp. exact Hs.
+Qed.
+
+Definition eof_bad : list byte :=
+  [31;139;8;0;0;0;0;0;0;0; 1;1;0;254;255;0; 397;238;2;210;1;0;0;0].
+
+Lemma gz_stream_false_inv : forall m l p left, gz_stream m l p left -> m = false ->
+  exists h rest, gz_parse_header l = HP_ok h rest /\
+    firstn 8 (skipn (N.to_nat ((bitpos (inflate [] rest) + 7) / 8)) rest)
+      = gz_trailer (out (inflate [] rest)).
+Proof.
+  intros m l p left H Hm. destruct H as [multi l h rest n Hp Hd Hn Htr Hc | l h rest n p left Hp Hd Hn Htr Hs].
+  - subst n. eauto.
+  - discriminate.
+Qed.
+
+Lemma gz_eof_checked_counterexample : ~ gz_eof_checked_statement.
+Proof.
+  intros H. specialize (H false eof_bad).
+  assert (E : gz_read false eof_bad = mkgres [0] CEOF [] [mkgh 0 0 0 [] [] [] false] false)
+    by (vm_compute; reflexivity).
+  rewrite E in H. cbn [g_err g_at_ctor g_payload g_left] in H.
+  specialize (H eq_refl eq_refl).
+  destruct (gz_stream_false_inv _ _ _ _ H eq_refl) as (h & rest & Hp & Htr).
+  vm_compute in Hp. injection Hp as <- <-.
+  vm_compute in Htr. discriminate.
+Qed.
+
+Lemma zl_read_eof : forall dict l, g_err (zl_read dict l) = CEOF ->
+  exists d r1, suffix r1 l /\ zl_read dict l = zl_body d r1.
+Proof.
+  intros dict l H. unfold zl_read in *.
+  destruct (length l <? 2)%nat; [discriminate|].
+  destruct (negb _); [discriminate|]. cbv zeta in *.
+  destruct (N.testbit (nth 1 l 0) 5).
+  - destruct (length (skipn 2 l) <? 4)%nat; [discriminate|].
+    destruct dict as [d|]; [|discriminate].
+    destruct (_ =? _); [|discriminate].
+    exists d, (skipn 4 (skipn 2 l)). split; [|reflexivity].
+    eapply suffix_trans; [exact (suffix_skipn 4 (skipn 2 l)) | exact (suffix_skipn 2 l)].
+  - exists [], (skipn 2 l). split; [exact (suffix_skipn 2 l)|reflexivity].
+Qed.
+
+Lemma zl_body_eof : forall d r1, g_err (zl_body d r1) = CEOF ->
+  let r := inflate d r1 in
+  let X := skipn (N.to_nat ((bitpos r + 7) / 8)) r1 in
+  status r = Done /\ g_payload (zl_body d r1) = out r /\ (4 <= length X)%nat /\
+  of_be (firstn 4 X) = adler32 (out r).
+Proof.
+  intros d r1 H. unfold zl_body in *. cbv zeta in *.
+  destruct (status (inflate d r1)); try discriminate.
+  destruct (Nat.ltb_spec (length (skipn (N.to_nat ((bitpos (inflate d r1) + 7) / 8)) r1)) 4) as [L|L];
+    [discriminate|].
+  destruct (N.eqb_spec (of_be (firstn 4 (skipn (N.to_nat ((bitpos (inflate d r1) + 7) / 8)) r1)))
+                       (adler32 (out (inflate d r1)))) as [E|E]; [|discriminate].
+  repeat split; auto.
+Qed.
+
+Lemma firstn4_be : forall X : list byte, bytes_lt256 X -> (4 <= length X)%nat ->
+  firstn 4 X = be32 (of_be (firstn 4 X)).
+Proof.
+  intros X Hb Hl.
+  do 4 (destruct X as [|? X]; [cbn [length] in Hl; lia|]).
+  cbn [firstn]. unfold bytes_lt256 in Hb.
+  repeat match goal with H : Forall _ (_ :: _) |- _ =>
+    let H1 := fresh "Hx" in let H2 := fresh "Hr" in inversion H as [|? ? H1 H2]; subst; clear H end.
+  apply of_be4_inv; auto.
+Qed.
+
+(* zl_eof_checked_statement: the natural witnesses (the dictionary in use and the bytes after
+   the zlib header) work when the input is a list of bytes.  For lists with elements >= 256 the
+   four elements after the DEFLATE stream need not be be32 of the checksum although of_be of
+   them is (e.g. [120;1; 1;1;0;254;255;0; 0;0;256;1]); other witnesses exist in that case, but
+   exhibiting them needs inflate_mono and inflate_done_exact (second variant below). *)
+Theorem zl_eof_checked_partial :
+  forall dict l, bytes_lt256 l -> g_err (zl_read dict l) = CEOF ->
+    exists d rest r, r = inflate d rest /\ status r = Done /\ g_payload (zl_read dict l) = out r /\
+      firstn 4 (skipn (N.to_nat ((bitpos r + 7) / 8)) rest) = be32 (adler32 (out r)).
+Proof.
+  intros dict l Hb H.
+  destruct (zl_read_eof dict l H) as (d & r1 & Hs & E). rewrite E in *.
+  destruct (zl_body_eof d r1 H) as (Hd & Hp & Hl & Ha).
+  exists d, r1, (inflate d r1). repeat split; auto.
+  rewrite <- Ha. apply firstn4_be; auto.
+  apply Forall_skipn'. eapply suffix_bytes; eauto.
+Qed.
+
+Theorem zl_eof_checked_exact_partial :
+  inflate_mono_statement -> inflate_done_exact_statement -> zl_eof_checked_statement.
+Proof.
+  intros M Ex dict l H.
+  destruct (zl_read_eof dict l H) as (d & r1 & Hs & E). rewrite E in *.
+  destruct (zl_body_eof d r1 H) as (Hd & Hp & Hl & Ha).
+  set (r := inflate d r1) in *. set (n := N.to_nat ((bitpos r + 7) / 8)) in *.
+  pose proof (Ex d r1 Hd) as Hex. cbv zeta in Hex. fold r in Hex. fold n in Hex.
+  assert (Hn : length (firstn n r1) = n).
+  { rewrite firstn_length. rewrite skipn_length in Hl. lia. }
+  assert (Hr : inflate d (firstn n r1 ++ be32 (adler32 (out r))) = r).
+  { rewrite (mono_done M d (firstn n r1)); [exact Hex|]. rewrite Hex. exact Hd. }
+  exists d, (firstn n r1 ++ be32 (adler32 (out r))), r.
+  split; [now rewrite Hr|]. split; [exact Hd|]. split; [exact Hp|].
+  fold n. rewrite <- Hn at 1. rewrite skipn_len_app. reflexivity.
+Qed.
+
+(* ---------------------------------------------------------------- *)
+(* truncated members                                                *)
+(* ---------------------------------------------------------------- *)
+
+Lemma gz_header_cons' : forall h,
+  gz_header h =
+  31 :: 139 :: 8 :: gz_flags h ::
+  g_mtime h mod 256 :: (g_mtime h / 256) mod 256 :: (g_mtime h / 65536) mod 256 ::
+  (g_mtime h / 16777216) mod 256 :: g_xfl h :: g_os h ::
+  (enc_extra (g_extra h) ++ enc_str (g_name h) ++ enc_str (g_comment h) ++
+   crc_part (g_hcrc h) (gz_header_nocrc h)).
+Proof.
+  intros h. rewrite <- (app_nil_r (gz_header h)) at 1. rewrite gz_header_cons.
+  now rewrite app_nil_r.
+Qed.
+
+Lemma parse_header_trunc : forall h k, ghdr_ok h -> (k < length (gz_header h))%nat ->
+  gz_parse_header (firstn k (gz_header h))
+    = HP_err (match k with O => CEOF | S _ => CUnexpectedEOF end).
+Proof.
+  intros h k (Hmt & Hxfl & Hos & He & _ & _ & _ & Hn1 & Hc1 & Hn2 & Hc2) Hk.
+  pose proof (gz_flags_bits h) as (F1 & F2 & F3 & F4).
+  rewrite gz_header_cons' in *.
+  do 10 (destruct k as [|k]; [reflexivity|]).
+  cbn [firstn]. cbn [length] in Hk.
+  erewrite parse_fixed by reflexivity.
+  eapply parse_tail_trunc; eauto; [apply crc_part_len | lia].
+Qed.
+
+Lemma read_body_trunc : inflate_mono_statement -> forall body payload j,
+  body_for body payload -> (j < length body + 8)%nat ->
+  exists p rest', gz_read_body (firstn j (body ++ gz_trailer payload)) = (p, Some CUnexpectedEOF, rest')
+    /\ is_prefix p payload.
+Proof.
+  intros M body payload j (Hd & Ho & Hn) Hj.
+  destruct (lt_dec j (length body)) as [L|L].
+  - rewrite firstn_app_le by lia.
+    set (s := firstn j body). set (t := skipn j body).
+    assert (Eb : body = s ++ t) by (unfold s, t; now rewrite firstn_skipn).
+    assert (Hs : length s = j) by (unfold s; rewrite firstn_length; lia).
+    unfold gz_read_body. cbv zeta.
+    destruct (status (inflate [] s)) eqn:Es.
+    + pose proof (mono_done M [] s t Es) as Em. rewrite <- Eb in Em.
+      rewrite <- Em. rewrite Hn, Nat2N.id, Ho.
+      rewrite skipn_all2 by lia. cbn [length]. change (0 <? 8)%nat with true. cbn iota.
+      exists payload, []. split; [reflexivity|]. exists []. now rewrite app_nil_r.
+    + exists (out (inflate [] s)), []. split; [reflexivity|].
+      pose proof (mono_need M [] s t Es) as Hp. rewrite <- Eb, Ho in Hp. exact Hp.
+    + pose proof (mono_corrupt M [] s t Es) as Hc. rewrite <- Eb in Hc. congruence.
+    + exfalso. eapply mono_nofuel; eauto.
+  - rewrite firstn_app_ge by lia.
+    unfold gz_read_body. cbv zeta.
+    rewrite (mono_done M [] body _ Hd). rewrite Hd, Hn, Nat2N.id, Ho.
+    rewrite skipn_len_app. rewrite firstn_length. rewrite trailer_len.
+    destruct (Nat.ltb_spec (Nat.min (j - length body) 8) 8) as [H8|H8]; [|lia].
+    exists payload, []. split; [reflexivity|]. exists []. now rewrite app_nil_r.
+Qed.
+
+Theorem gz_payload_prefix : gz_payload_prefix_statement.
+Proof.
+  intros M _ h body payload k Hh Hb whole Hk r. subst r whole.
+  unfold gz_member in *. rewrite app_length in Hk.
+  destruct (lt_dec k (length (gz_header h))) as [L|L].
+  - rewrite firstn_app_le by lia. unfold gz_read.
+    rewrite (parse_header_trunc h k Hh L). cbn [g_payload g_err].
+    split; [now exists payload|]. destruct k; auto.
+  - rewrite firstn_app_ge by lia. unfold gz_read.
+    rewrite (gz_header_roundtrip h _ Hh). cbn [gz_members].
+    rewrite app_length, trailer_len in Hk.
+    destruct (read_body_trunc M body payload (k - length (gz_header h)) Hb) as (p & rest' & E & Hp);
+      [lia|].
+    rewrite E. cbn [app g_payload g_err]. split; [exact Hp|now left].
+Qed.
+
+Print Assumptions checksum_width_partial.
+Print Assumptions checksum_width_counterexample.
+Print Assumptions gz_header_roundtrip.
+Print Assumptions gz_member_roundtrip.
+Print Assumptions gz_member_by_member.
+Print Assumptions gz_concat.
+Print Assumptions zl_roundtrip.
+Print Assumptions gz_eof_checked_partial.
+Print Assumptions gz_eof_checked_counterexample.
+Print Assumptions zl_eof_checked_partial.
+Print Assumptions zl_eof_checked_exact_partial.
+Print Assumptions gz_payload_prefix.
